@@ -105,6 +105,13 @@ func (r *schedRand) Read(b []byte) (int, error) {
 	return len(b), nil
 }
 
+func at(v [][][]byte, t, i int) []byte {
+	if t < len(v) && i < len(v[t]) {
+		return v[t][i]
+	}
+	return nil
+}
+
 func msgOf(a uint64) []byte { return []byte(fmt.Sprintf("message-%d", a%5)) }
 
 func blsFam[K bls.KeyGroup](name string) famDef {
@@ -679,6 +686,16 @@ func directed(tier string) []any {
 		if race && tier != "thorough" {
 			lim = 1
 		}
+		if n == "own" {
+			// every kind of the own-objects family, pre-empted right after each of its first
+			// sync / atomic operations: the check-then-act windows of package-level memos and
+			// caches that are guarded by a lock (or an atomic) but released in between
+			for _, kd := range kinds {
+				for j := 0; j < lim; j++ {
+					pair(kd, uint64(200+j), SwitchSpec{Task: 0, Mode: "sync", Num: uint64(j), To: 1})
+				}
+			}
+		}
 		for k := 0; k < lim; k++ {
 			for _, mode := range []string{"pw", "early", "sync"} {
 				num := uint64(k)
@@ -856,6 +873,19 @@ func exec(planJSON []byte, run *core.Run) {
 			}
 		}
 		run.Probe("expected-values-computed-after-the-scheduled-run")
+	}
+	// the tasks of the cold / own families run honest, self-contained protocols: a failure
+	// marker ("!!…") is a failure of the library whoever reports it — the scheduled task, or the
+	// sequential reference of a LATER run in a process whose package-level state was left wrong
+	for t := range p.Tasks {
+		for i := range p.Tasks[t] {
+			for _, o := range [][]byte{at(out, t, i), at(ref, t, i)} {
+				if bytes.HasPrefix(o, []byte("!!")) {
+					run.Violate(comp+"."+p.Tasks[t][i].K, "honest-self-contained-call-fails", "task %d op %d (%s) reports %q (schedule %v)", t, i, p.Tasks[t][i].K, o, sw)
+					return
+				}
+			}
+		}
 	}
 	for t := range p.Tasks {
 		if panics[t] != "" {
